@@ -4,6 +4,7 @@ refactorings of the code a property is anchored in (second-pass flavour: structu
 kinds).  usage: refac_prompt.py <PROP> <ID>  -> prints the prompt; worktree /tmp/refac/<ID>."""
 import json, sys
 prop, rid = sys.argv[1], sys.argv[2]
+variant = sys.argv[3] if len(sys.argv) > 3 else 't'
 P = {}
 for l in open('/verif/properties.jsonl'):
     d = json.loads(l); P[d['id']] = d
@@ -11,6 +12,11 @@ p = P[prop]
 wt = f'/tmp/refac/{rid}'
 mech = p.get('anchors', {}).get('mechanism') or []
 ml = "\n".join(f" - {m.get('name')}  [{m.get('where','')}]" for m in mech)
+NOTES = {
+ 't': "NOTE: another maintainer already did a first pass over these functions (renames of locals, simple early returns, if->switch, single error wraps). Choose DIFFERENT spots and prefer the structurally more interesting kinds: 4, 5, 6, 8, 9, 10, and combinations such as 'introduce a local and use it in two places', 'extract a helper that takes parameters and returns a value', 'merge two guards into one condition' or 'split one condition into two guards'.",
+ 'u': "NOTE: two maintainers already went over these functions (renames, early returns, if<->switch, loop spellings, single-use locals, small extracted helpers, deferred unlocks). Choose DIFFERENT spots and go for the less common but still everyday clean-ups: extract a helper that returns TWO OR MORE values (value, ok / value, err); turn a closure / function literal into a named method passed as a method value (or the reverse: inline a tiny helper at its only call site); hoist a repeated expression into a local declared with `var` and assigned in branches; replace a boolean flag by an early exit (or introduce one); replace `x := a; if c { x = b }` by an if/else; convert a `for {}` with break conditions into a `for cond {}` loop (or the reverse); use named results; replace `append` in a loop by preallocation + index assignment; swap the operands of a symmetric comparison (`a == b` -> `b == a`, `a < b` -> `b > a`); apply De Morgan to a condition.",
+}
+NOTE = NOTES[variant]
 print(f"""You are doing routine maintenance refactoring on a Go codebase. Work ONLY inside the git worktree {wt} (a checkout of the stream-processing engine reduction-dev/reduction; module reduction.dev/reduction). Do not read or write anything under /verif or /repo. The sandbox has no network. Do NOT use `git stash` (it is shared between worktrees).
 
 CONTEXT: the code below implements this correctness property, and it must KEEP holding after your work.
@@ -40,4 +46,4 @@ WORKFLOW for patch k (k = 1..8): make the edit; run
 
 DELIVERABLES inside {wt}/REFAC/: 01.diff ... 08.diff and meta.json : {{"property": "{prop}", "patches": [{{"file": "0k.diff", "source_file": "...", "function": "...", "kind": "...", "why_behaviour_preserving": "..."}}, ...]}}
 Leave the worktree clean (all edits undone) at the end. Be careful: a 'refactoring' that subtly changes behaviour is a failure of this task - re-read each diff before saving it.
-NOTE: another maintainer already did a first pass over these functions (renames of locals, simple early returns, if->switch, single error wraps). Choose DIFFERENT spots and prefer the structurally more interesting kinds: 4, 5, 6, 8, 9, 10, and combinations such as 'introduce a local and use it in two places', 'extract a helper that takes parameters and returns a value', 'merge two guards into one condition' or 'split one condition into two guards'.""")
+{NOTE}""")
